@@ -372,11 +372,11 @@ func rootElements(rootURL string, root interface{}) []vertex {
 
 // graphFacts: reachability analysis from the root elements.
 type graphFacts struct {
-	Reachable  int  // vertices reachable from the root elements
-	Cyclic     bool // some reachable vertex lies on a cycle
+	Reachable  int      // vertices reachable from the root elements
+	Cyclic     bool     // some reachable vertex lies on a cycle
 	Broken     []string // unresolvable references the expansion has to follow (verbatim "base -> ref")
-	IllFounded bool // a chain of nothing but references loops
-	Unfolding  int  // size of the acyclic unfolding (a reference is not followed when its target is on the path)
+	IllFounded bool     // a chain of nothing but references loops
+	Unfolding  int      // size of the acyclic unfolding (a reference is not followed when its target is on the path)
 }
 
 func (u Universe) facts(rootURL string, skipSchemas bool) graphFacts {
